@@ -76,8 +76,14 @@ class BuildError(Exception):
 HARNESSES = {}
 
 
-def harness(name, srcs, libs=("tools",), extra="", cxx="g++", link_extra=""):
-    HARNESSES[name] = dict(srcs=srcs, libs=libs, extra=extra, cxx=cxx, link_extra=link_extra)
+def harness(name, srcs, libs=("tools",), extra="", cxx="g++", link_extra="", fz="", norc=False):
+    HARNESSES[name] = dict(srcs=srcs, libs=libs, extra=extra, cxx=cxx, link_extra=link_extra, fz=fz, norc=norc)
+
+
+def fuzz_target(name, srcs, extra=""):
+    """libFuzzer target built with clang from fuzz/<name>.cc plus the few /repo sources it needs (absolute paths)."""
+    harness(name, srcs, libs=(), extra="-fsanitize=fuzzer-no-link -I/verif/fuzz " + extra, cxx="clang++",
+            fz="-fsanitize=fuzzer", norc=True)
 
 
 def _write_if_changed(path, text):
@@ -165,7 +171,8 @@ def mkwork(prop):
 def run_env(prop, extra=None):
     env = dict(os.environ)
     env.update(ENV_RUN)
-    env["VV_KNOWN"] = ",".join(k["key"] for k in known_for(prop))
+    env["VV_KNOWN"] = ",".join([k["key"] for k in known_for(prop)] +
+                               [k for k in os.environ.get("VV_KNOWN_EXTRA", "").split(",") if k])
     env["VV_REPO"] = REPO
     env["VV_RB"] = RB
     env["PATH"] = f"{RB}/csg/src/tools:{RB}/csg/src/csg_boltzmann:{RB}/tools/src/tools:{REPO}/csg/scripts:" + env["PATH"]
@@ -261,7 +268,8 @@ def run_rc(prop, hname, seed, cases, procs, workdir, budget_s, extra_args=(), ma
 
 def save_replay(prop, f):
     os.makedirs(FOUND, exist_ok=True)
-    body = json.dumps(dict(property=prop, sub=f.get("sub"), key=f.get("key"), msg=(f.get("msg") or "")[:2000],
+    extra = {"artifact": f["artifact"]} if f.get("artifact") else {}
+    body = json.dumps(dict(**extra, property=prop, sub=f.get("sub"), key=f.get("key"), msg=(f.get("msg") or "")[:2000],
                            harness=f.get("harness"), engine=f.get("engine", "rc"), case=f.get("case")), indent=1)
     h = hashlib.sha1(body.encode()).hexdigest()[:10]
     path = f"{FOUND}/{prop}-{f.get('sub')}-{h}.json"
